@@ -53,6 +53,9 @@ func checkRuntime(c *Ctx, prop string) {
 	if prop == "C06" || prop == "C05" {
 		rtZeroSize(c, c.scale(20, 400))
 	}
+	if prop == "C06" {
+		rtUnregRace(c, c.scale(20, 300))
+	}
 	if prop == "C08" {
 		// API calls return at the latest when their own context ends, the monitor is never left blocked, and a
 		// watcher's Done lets the goroutines exit - also for the library's own wrapper around WatchArgs, the Blank
